@@ -48,6 +48,8 @@ type Scenario struct {
 	SharedSession bool `json:"upstream_pairs_share_node_and_session,omitempty"`
 	// CloseBudgetMs: Close gets a context of its own with this timeout (0: the run's context)
 	CloseBudgetMs int `json:"close_context_ms,omitempty"`
+	// Closers: Close is called by this many goroutines at once (0/1: one caller)
+	Closers int `json:"concurrent_close_callers,omitempty"`
 }
 
 func Gen(r *rand.Rand, quickChunks int) Scenario {
@@ -435,7 +437,28 @@ func Run(s Scenario) (*Outcome, string) {
 			time.Sleep(200 * time.Microsecond)
 		}
 	}
-	if s.CloseBudgetMs > 0 {
+	if s.Closers > 1 {
+		// several parts of the application close the stream at the same time; the call that does the closing counts
+		errs := make([]error, s.Closers)
+		var cwg sync.WaitGroup
+		start := make(chan struct{})
+		for k := range errs {
+			cwg.Add(1)
+			go func() {
+				defer cwg.Done()
+				<-start
+				errs[k] = down.Close(ctx)
+			}()
+		}
+		close(start)
+		cwg.Wait()
+		out.CloseErr = errs[0]
+		for _, e := range errs {
+			if e == nil {
+				out.CloseErr = nil
+			}
+		}
+	} else if s.CloseBudgetMs > 0 {
 		cctx, ccancel := context.WithTimeout(ctx, time.Duration(s.CloseBudgetMs)*time.Millisecond)
 		out.CloseErr = down.Close(cctx)
 		ccancel()
